@@ -2,6 +2,9 @@ pub mod cli;
 pub mod ctx;
 pub mod extract;
 pub mod heapmon;
+pub mod jsread;
+pub mod gen_ops;
+pub mod gen_schema;
 pub mod gen_syntax;
 pub mod model;
 pub mod real;
@@ -13,7 +16,9 @@ pub mod pipeline;
 pub mod props;
 pub mod report;
 pub mod rng;
+pub mod schema_ix;
 pub mod srcmap;
+pub mod validate;
 
 use ctx::Ctx;
 use report::{Report, Violation};
@@ -29,6 +34,7 @@ pub fn run_property(ctx: &Ctx, rep: &mut Report) -> Result<(), String> {
         "C08L" => props::c08::run_loader(ctx, rep),
         "C11" => props::c11::run(ctx, rep),
         "C13" => props::c13::run(ctx, rep),
+        "C16" => props::c16::run(ctx, rep),
         "C19" => props::c19::run(ctx, rep),
         "C20" => props::c20::run(ctx, rep),
         p => return Err(format!("unknown property {p}")),
@@ -44,6 +50,7 @@ pub fn replay_case(case: &Value, ctx: &Ctx) -> Result<Vec<Violation>, String> {
         "C08" => Ok(props::c08::replay(case, ctx)),
         "C11" => Ok(props::c11::replay(case)),
         "C13" => Ok(props::c13::replay(case)),
+        "C16" => Ok(props::c16::replay(case, ctx)),
         "C19" => Ok(props::c19::replay(case)),
         "C20" => Ok(props::c20::replay(case)),
         p => Err(format!("unknown property {p}")),
